@@ -552,6 +552,11 @@ def check(ctx: Ctx):
     from . import c03, c05
 
     c03._guarded(ctx, "R05.1", c05.check_dispatch)
+    # "number of predicted / reference instances" in the final result are the pair's own counts
+    # (wiring of panoptic_evaluate, R01.2)
+    from . import c01
+
+    c03._guarded(ctx, "R01.2", c01.check_pipeline)
 
 
 _I = "panoptica/instance_evaluator.py"
